@@ -2179,6 +2179,8 @@ class TargetRegistry:
         self._op_type_map[op_name] = type_map
         self._op_type_tree[op_name] = type_tree
         self._op_auto_map[op_name] = auto_func
+        # a lookup made before the op was declared may have memoised a miss
+        self._type_cache = {}
 
     def _register_builtin_ops(self):
         def _get_iterable_handler(type_obj):
